@@ -3,7 +3,8 @@
 //   decode(encode(p)) == p (Debug form) and re-encodes to the same bytes; a proper prefix and a file with trailing
 //   bytes are refused with Err; a corrupted file never crashes the decoder (checked in a child process, because an
 //   abort cannot be caught) and is either refused or decodes to the same program.
-use dora_bytecode::{decode_program_from_bytes, Program};
+use dora_bytecode::{decode_program_from_bytes, BytecodeTraitType, BytecodeType, BytecodeTypeArray, Program};
+use dora_compiler::wire::{decode_bytecode_type, encode_bytecode_type, ByteBuffer, ByteReader};
 use dora_frontend::sema::{Sema, SemaCreationParams};
 use dora_frontend::{check_program, emit_program};
 use std::sync::Arc;
@@ -142,6 +143,55 @@ fn check_program_text(text: &str, rng: &mut Rng, scratch: &str) -> Result<bool, 
     Ok(true)
 }
 
+// ---- the hand-written type encoding between compiler and runtime (dora-compiler/src/wire.rs): decode(encode(t)) == t ----
+fn gen_id(rng: &mut Rng) -> usize {
+    match rng.below(6) { 0 => 0, 1 => 1, 2 => 255, 3 => 256, 4 => i32::MAX as usize, _ => (rng.next() % (i32::MAX as u64 + 1)) as usize }
+}
+fn gen_array(rng: &mut Rng, depth: usize) -> BytecodeTypeArray {
+    let n = if depth == 0 { 0 } else { rng.below(4) };
+    BytecodeTypeArray::new((0..n).map(|_| gen_type(rng, depth - 1)).collect())
+}
+fn gen_type(rng: &mut Rng, depth: usize) -> BytecodeType {
+    let k = if depth == 0 { rng.below(12) } else { rng.below(19) };
+    match k {
+        0 => BytecodeType::Unit, 1 => BytecodeType::Bool, 2 => BytecodeType::UInt8, 3 => BytecodeType::Char, 4 => BytecodeType::Int32, 5 => BytecodeType::Int64,
+        6 => BytecodeType::Float32, 7 => BytecodeType::Float64, 8 => BytecodeType::Address, 9 => BytecodeType::This, 10 => BytecodeType::Never,
+        11 => BytecodeType::TypeParam(gen_id(rng) as u32),
+        12 => BytecodeType::Tuple(gen_array(rng, depth)),
+        13 => BytecodeType::Enum(gen_id(rng).into(), gen_array(rng, depth)),
+        14 => BytecodeType::Struct(gen_id(rng).into(), gen_array(rng, depth)),
+        15 => BytecodeType::Class(gen_id(rng).into(), gen_array(rng, depth)),
+        16 => BytecodeType::TraitObject(gen_id(rng).into(), gen_array(rng, depth), gen_array(rng, depth)),
+        17 => {
+            let nb = rng.below(3);
+            let trait_ty = BytecodeTraitType { trait_id: gen_id(rng).into(), type_params: gen_array(rng, depth),
+                                              bindings: (0..nb).map(|_| (gen_id(rng).into(), gen_type(rng, depth - 1))).collect() };
+            BytecodeType::Assoc { ty: Box::new(gen_type(rng, depth - 1)), trait_ty, assoc_id: gen_id(rng).into() }
+        }
+        _ => BytecodeType::Ref(Box::new(gen_type(rng, depth - 1))),
+    }
+}
+fn check_wire(seed: u64, iter: u64) -> Result<(), String> {
+    let mut rng = Rng((seed.wrapping_mul(0x9E3779B97F4A7C15) ^ iter.wrapping_mul(0xD1B54A32D192ED03)) | 1);
+    let depth = 1 + rng.below(4);
+    let ty = gen_type(&mut rng, depth);
+    let r = std::panic::catch_unwind(|| {
+        let mut buf = ByteBuffer::new();
+        encode_bytecode_type(&ty, &mut buf);
+        let mut reader = ByteReader::new(buf.data().to_vec());
+        let back = decode_bytecode_type(&mut reader);
+        (back, reader.has_more(), buf.data().len())
+    });
+    match r {
+        Err(_) => Err(format!("encoding or decoding the type {:?} panics", ty)),
+        Ok((back, more, n)) => {
+            if back != ty { return Err(format!("type {:?} reads back as {:?}", ty, back)); }
+            if more { return Err(format!("decoding {:?} leaves bytes of its {}-byte encoding unread", ty, n)); }
+            Ok(())
+        }
+    }
+}
+
 fn to_hex(s: &str) -> String { s.bytes().map(|b| format!("{:02x}", b)).collect() }
 fn from_hex(h: &str) -> String {
     let b: Vec<u8> = (0..h.len() / 2).map(|i| u8::from_str_radix(&h[2 * i..2 * i + 2], 16).unwrap()).collect();
@@ -155,6 +205,12 @@ fn main() {
     }
     std::panic::set_hook(Box::new(|_| {}));
     let scratch = std::env::var("VX_SCRATCH").unwrap_or_else(|_| "/var/tmp".to_string());
+    if args.len() >= 4 && args[1] == "replay-wire" {
+        match check_wire(args[2].parse().unwrap(), args[3].parse().unwrap()) {
+            Err(w) => { println!("STILL FAILS on the real code: {}", w); std::process::exit(1) }
+            Ok(()) => { println!("case passes on the real code"); std::process::exit(0) }
+        }
+    }
     if args.len() >= 4 && args[1] == "replay" {
         let t = from_hex(&args[2]);
         let mut rng = Rng(args[3].parse::<u64>().unwrap() | 1);
@@ -172,6 +228,10 @@ fn main() {
     let t0 = Instant::now();
     let mut rng = Rng(seed.wrapping_mul(0x9E3779B97F4A7C15) | 1);
     let (mut tried, mut built) = (0u64, 0u64);
+    // wire.rs round trip: 20 000 generated types first (a few milliseconds)
+    for it in 0..20000u64 {
+        if let Err(w) = check_wire(seed, it) { println!("{{\"found\":true,\"kind\":\"wire\",\"seed\":{},\"iter\":{},\"text_hex\":\"\",\"rng\":0,\"what\":{:?}}}", seed, it, w); return; }
+    }
     while t0.elapsed() < budget || built == 0 && tried < 20 {
         let t = gen_program(&mut rng);
         let rs = rng.next();
@@ -188,5 +248,5 @@ fn main() {
         println!("{{\"found\":true,\"tried\":{},\"programs_built\":{},\"text_hex\":\"{}\",\"rng\":{},\"accepted_wrong_programs\":{},\"what\":\"corrupted package decodes to a different program\",\"example\":{:?}}}", tried, built, hex, rs, n, ex);
         return;
     }
-    println!("{{\"found\":false,\"tried\":{},\"programs_built\":{}}}", tried, built);
+    println!("{{\"found\":false,\"tried\":{},\"programs_built\":{},\"wire_types\":20000}}", tried, built);
 }
